@@ -209,7 +209,7 @@ func (a *Act) frameAt(ex exitPt, ei int, env *Env) {
 	}
 	sort.Strings(hvs)
 	for _, hv := range hvs {
-		if whole[hv] || strings.HasPrefix(hv, "ITER") || hv == "$wm" {
+		if whole[hv] || strings.HasPrefix(hv, "ITER") || hv == "$wm" || g.w.scratch[hv] {
 			continue
 		}
 		cur := ex.st[hv]
